@@ -325,7 +325,7 @@ func c07HistoryPairs(r *run.Run) {
 func c07Simple(r *run.Run) {
 	alphabet := []glyph.ID{gen.GA, gen.GB, gen.GM, gen.GN, gen.GL}
 	r.Explore(explore.Config{Name: "C07.simple", Deadline: r.PartDeadline(0.2)},
-		"every simple GSUB and GPOS lookup of the menus (incl. cursive attachment) x every flag combination x 4 GDEF variants, delivered through Encode/Read, on all glyph sequences of length <= 4 over {A,B,M,N,L}: no panic, termination, every input character exactly once in the output",
+		"every simple GSUB and GPOS lookup of the menus (incl. cursive attachment) x every flag combination x 5 GDEF variants (one with glyph classes outside 1..4), delivered through Encode/Read, on all glyph sequences of length <= 4 over {A,B,M,N,L}: no panic, termination, every input character exactly once in the output",
 		func(c *explore.Ctx) {
 			gpos := c.Bool("gpos")
 			menu := gen.GsubSimple
@@ -334,7 +334,7 @@ func c07Simple(r *run.Run) {
 			}
 			k := c.Choose(len(menu), "lookup")
 			f := gen.Flags[c.Choose(len(gen.Flags), "flags")]
-			gd, gdn := gen.Gdef(c.Choose(4, "gdef"))
+			gd, gdn := gen.Gdef(c.Choose(5, "gdef"))
 			ll := gtab.LookupList{gen.MakeLookup(menu[k].Type, f, menu[k].Sub())}
 			desc := menu[k].Name + " " + f.Name + ", gdef:" + gdn
 			c.Sample(func() any { return desc })
